@@ -59,7 +59,8 @@ impl ErrSpan {
         match self {
             ErrSpan::One(r)      => r.clone(),
             ErrSpan::Two([r, _]) => r.clone(),
-            ErrSpan::Many(r)     => r.first().unwrap().clone(),
+            // (an error without a source location, e.g. a link error, has an empty span list)
+            ErrSpan::Many(r)     => r.first().cloned().unwrap_or(0..0),
         }
     }
 
